@@ -12,6 +12,8 @@ import BB.Proofs.G2Describe
 import BB.Proofs.DictEq
 import BB.Proofs.Copy
 import Mathlib.Logic.ExistsUnique
+import BB.Proofs.G12Names
+import BB.Proofs.G12Loop
 
 namespace BB.C05
 open BB BB.BP
@@ -960,5 +962,251 @@ theorem element_description_of_blueprint_channel (b : BP) (fl : List Nat) :
   constructor
   · simp [Element.chanDesc, BP.toDesc, pure, Except.pure]
   · exact ⟨_, rfl, by simp [Element.chanDesc, BP.toDesc, pure, Except.pure]⟩
+
+end BB.C05
+
+/-! ## G12: the name invariant for blueprints held by elements and sequences; rejected
+    `replaceeverywhere` edits -/
+
+namespace BB.C05
+open BB BB.BP
+open BB.G2
+
+/-- **`addBluePrint` stores a copy with canonical names, whatever it is given** (clause "After any
+    history of ... copying segments, segment names are pairwise distinct", for the copy an Element
+    takes): for every element, channel and *every* blueprint value `b` with at least one segment
+    (canonically named or not), the call is accepted, the channel then holds `b.copy`, and the
+    stored blueprint's names are canonical and pairwise distinct. -/
+theorem addBluePrint_stores_canonical_copy (e : Element) (ch : Chan) (b : BP) (hne : b.segs.isEmpty = false) :
+    (e.addBluePrint ch b).err = none ∧
+    Dict.get? (e.addBluePrint ch b).st.chans ch = some { data := .bp b.copy } ∧
+    makeNamesUnique b.copy.names = b.copy.names ∧ b.copy.names.Nodup := by
+  unfold Element.addBluePrint
+  simp only [hne, Bool.false_eq_true, if_false]
+  exact ⟨trivial, Dict.get?_upsert_self _ _ _, inv_copy b, inv_nodup (inv_copy b)⟩
+
+/-- **the name invariant for every blueprint an API-built element holds** (clause "After any history
+    ... segment names are pairwise distinct - the k-th segment sharing a base name is called base for
+    k=1 and base+str(k) otherwise ..., also when issued through an Element"): for every element built
+    through the public element API (`Element.ApiBuilt`: `addBluePrint` of *arbitrary* blueprint
+    values, `addArray`, `addFlags`, `Element.changeArg`, `Element.changeDuration` - accepted or
+    rejected -, `validateDurations`, `_applyDelays`, `copy`) and every channel holding a blueprint
+    `b`: `b`'s name list is its own canonical renumbering, and pairwise distinct.  Hence every
+    `..._of_distinct` theorem above applies to `b`. -/
+theorem element_blueprints_canonical (e : Element) (h : Element.ApiBuilt e) (ch : Chan) (ent : ChEntry) (b : BP)
+    (hget : Dict.get? e.chans ch = some ent) (hb : ent.data = .bp b) :
+    makeNamesUnique b.names = b.names ∧ b.names.Nodup := by
+  have hinv : Inv b := G12.apiBuilt_elInv h (ch, ent) (Dict.mem_of_get?_eq_some ch ent hget) b hb
+  exact ⟨hinv, inv_nodup hinv⟩
+
+/-- **... and for every blueprint inside an API-built sequence**: for every sequence built through
+    the public sequence API (`Sequence.ApiBuilt`), every element stored at a position and every
+    element inside a stored subsequence, every channel holding a blueprint `b`: `b`'s names are
+    canonical and pairwise distinct. -/
+theorem sequence_blueprints_canonical (s : Sequence) (h : Sequence.ApiBuilt s) :
+    (∀ p e ch ent b, Dict.get? s.data p = some (.el e) → Dict.get? e.chans ch = some ent → ent.data = .bp b →
+      makeNamesUnique b.names = b.names ∧ b.names.Nodup) ∧
+    (∀ p (sub : SubSeq) q e ch ent b, Dict.get? s.data p = some (.sub sub) → Dict.get? sub.data q = some e →
+      Dict.get? e.chans ch = some ent → ent.data = .bp b →
+      makeNamesUnique b.names = b.names ∧ b.names.Nodup) := by
+  have hi := G12.apiBuilt_seq_elInv h
+  refine ⟨fun p e ch ent b hp hc hb => ?_, fun p sub q e ch ent b hp hq hc hb => ?_⟩
+  · have hinv : Inv b :=
+      (hi _ (Dict.mem_of_get?_eq_some p _ hp)).1 e rfl (ch, ent) (Dict.mem_of_get?_eq_some ch ent hc) b hb
+    exact ⟨hinv, inv_nodup hinv⟩
+  · have hinv : Inv b :=
+      (hi _ (Dict.mem_of_get?_eq_some p _ hp)).2 sub rfl _ (Dict.mem_of_get?_eq_some q e hq) (ch, ent)
+        (Dict.mem_of_get?_eq_some ch ent hc) b hb
+    exact ⟨hinv, inv_nodup hinv⟩
+
+/-- **`Element.changeArg(..., replaceeverywhere=True)` on an API-built element** (clause "... of all
+    segments with the same base name when replaceeverywhere is set ... and change nothing else, also
+    when issued through an Element"): the call raises exactly when the blueprint call does; when
+    accepted, the channel holds the old blueprint in which exactly the segments sharing `name`'s base
+    name had `arg` set to `value`; every other channel, the channel order and the flags are untouched. -/
+theorem element_changeArg_all_frame (e : Element) (h : Element.ApiBuilt e) (ch : Chan) (name : String)
+    (arg value : Val) (ent : ChEntry) (b : BP) (hget : Dict.get? e.chans ch = some ent) (hb : ent.data = .bp b)
+    (hacc : (e.changeArg ch name arg value true).err = none) :
+    Dict.get? (e.changeArg ch name arg value true).st.chans ch =
+      some { ent with data := .bp { b with segs := b.segs.map (fun s =>
+          if basename s.name = basename name then setArgOf arg value s else s) } } ∧
+    (∀ ch2, ch2 ≠ ch → Dict.get? (e.changeArg ch name arg value true).st.chans ch2 = Dict.get? e.chans ch2) ∧
+    Dict.keys (e.changeArg ch name arg value true).st.chans = Dict.keys e.chans := by
+  obtain ⟨herr, hst, hoth, hkeys, _⟩ := element_changeArg_delegates e ch name arg value true ent b hget hb
+  rw [herr] at hacc
+  have hnd := (element_blueprints_canonical e h ch ent b hget hb).2
+  rw [changeArg_all_frame_of_distinct b hnd name arg value hacc] at hst
+  exact ⟨hst, hoth, hkeys⟩
+
+/-- **what a rejected `changeArg(name, arg, value, replaceeverywhere=True)` leaves behind** (the
+    property promises "unchanged" only for a rejected *single-segment* edit; this is what the loop
+    over several segments does).  For every blueprint with pairwise distinct names: either `name`'s
+    base name is no segment name - ValueError, nothing changed -, or there is a first segment `j`
+    (in blueprint order) sharing the base name that does not take the argument.  Then the exception
+    is the one the loop step on segment `j` raises, every segment sharing the base name *in front
+    of* `j` already carries `value` (they all took the argument), and segment `j`, every segment
+    behind it and every segment with another base name are exactly the old ones; the number of
+    segments, the markers and the sample rate are unchanged. -/
+theorem changeArg_all_rejected_changes_only_front (b : BP) (hnd : b.names.Nodup) (name : String) (arg value : Val)
+    (hrej : (b.changeArg name arg value true).err ≠ none) :
+    (basename name ∉ b.names ∧ (b.changeArg name arg value true).st = b) ∨
+    ∃ (j : ℕ) (hj : j < b.segs.length),
+      basename (b.segs[j]).name = basename name ∧ argOk arg b.segs[j] = false ∧
+      (∀ i (hi : i < b.segs.length), i < j → basename (b.segs[i]).name = basename name →
+        argOk arg b.segs[i] = true) ∧
+      (b.changeArg name arg value true).err = (b.changeArgOne (b.segs[j]).name arg value).err ∧
+      (b.changeArg name arg value true).st.segs.length = b.segs.length ∧
+      (b.changeArg name arg value true).st.marker1 = b.marker1 ∧
+      (b.changeArg name arg value true).st.marker2 = b.marker2 ∧
+      (b.changeArg name arg value true).st.SR = b.SR ∧
+      ∀ i (hi : i < b.segs.length) (hi2 : i < (b.changeArg name arg value true).st.segs.length),
+        (b.changeArg name arg value true).st.segs[i] =
+          if i < j ∧ basename (b.segs[i]).name = basename name then setArgOf arg value b.segs[i]
+          else b.segs[i] := by
+  rcases G12.changeArg_all_rejected b hnd name arg value hrej with h | ⟨j, hj, hbase, hbad, hmin, herr, hst⟩
+  · exact .inl h
+  · right
+    refine ⟨j, hj, hbase, hbad, hmin, herr, ?_⟩
+    generalize (b.changeArg name arg value true).st = r at hst
+    subst hst
+    refine ⟨by simp, rfl, rfl, rfl, ?_⟩
+    intro i hi hi2
+    simp only [List.getElem_map]
+    have hin : i < b.names.length := by rw [names_length]; exact hi
+    have hni : b.names[i] = (b.segs[i]).name := names_getElem b i hi
+    have hiff : (b.segs[i]).name ∈ (b.names.take j).filter (fun nm => basename nm == basename name) ↔
+        i < j ∧ basename (b.segs[i]).name = basename name := by
+      rw [List.mem_filter, ← hni, G12.getElem_mem_take_iff b.names hnd i j hin]
+      simp
+    by_cases hc : i < j ∧ basename (b.segs[i]).name = basename name
+    · rw [if_pos (hiff.mpr hc), if_pos hc]
+    · rw [if_neg (fun hm => hc (hiff.mp hm)), if_neg hc]
+
+/-- the same after any history of public blueprint calls -/
+theorem changeArg_all_rejected_after_history (h : Hist) (name : String) (arg value : Val)
+    (hrej : (h.eval.changeArg name arg value true).err ≠ none) :
+    (basename name ∉ h.eval.names ∧ (h.eval.changeArg name arg value true).st = h.eval) ∨
+    ∃ (j : ℕ) (hj : j < h.eval.segs.length),
+      basename (h.eval.segs[j]).name = basename name ∧ argOk arg h.eval.segs[j] = false ∧
+      ∀ i (hi : i < h.eval.segs.length) (hi2 : i < (h.eval.changeArg name arg value true).st.segs.length),
+        (h.eval.changeArg name arg value true).st.segs[i] =
+          if i < j ∧ basename (h.eval.segs[i]).name = basename name then setArgOf arg value h.eval.segs[i]
+          else h.eval.segs[i] := by
+  rcases changeArg_all_rejected_changes_only_front h.eval (names_distinct h) name arg value hrej with
+    h1 | ⟨j, hj, hb, hbad, _, _, _, _, _, _, hall⟩
+  · exact .inl h1
+  · exact .inr ⟨j, hj, hb, hbad, hall⟩
+
+/-- a callable with sine's signature (no parameter called "stop") -/
+def g12Sine : Fn :=
+  { special := false, name := "sine", qual := "function PulseAtoms.sine",
+    params := ["freq", "ampl", "off", "phase", "SR", "npts"], shape := .call }
+
+/-- ramp "a", sine "a2", ramp "a3": the three share the base name "a" -/
+def g12Hist : Hist :=
+  ((Hist.empty.op (.insert (-1) Fn.rampFn [.num 0, .num 1] (.num 1) (.str "a"))).op
+      (.insert (-1) g12Sine [.num 1, .num 1, .num 0, .num 0] (.num 1) (.str "a"))).op
+      (.insert (-1) Fn.rampFn [.num 0, .num 1] (.num 1) (.str "a"))
+
+/-- **witness: a rejected `replaceeverywhere` edit does change the blueprint.**  `changeArg("a",
+    "stop", 5, replaceeverywhere=True)` on ramp a / sine a2 / ramp a3 raises ValueError at `a2`
+    (sine has no `stop`), after `a` has already been given `stop = 5`; `a3` behind the failing
+    segment keeps `stop = 1`.  So "a rejected edit leaves the blueprint unchanged" is true for
+    single-segment edits only, as the property says. -/
+theorem changeArg_all_rejected_witness :
+    g12Hist.eval.names = ["a", "a2", "a3"] ∧
+    (g12Hist.eval.changeArg "a" (.str "stop") (.num 5) true).err = some .value ∧
+    (g12Hist.eval.changeArg "a" (.str "stop") (.num 5) true).st ≠ g12Hist.eval ∧
+    (g12Hist.eval.changeArg "a" (.str "stop") (.num 5) true).st.segs.map (·.args) =
+      [[.num 0, .num 5], [.num 1, .num 1, .num 0, .num 0], [.num 0, .num 1]] := by
+  refine ⟨by decide +kernel, by decide +kernel, by decide +kernel, by decide +kernel⟩
+
+/-- non-vacuity of `element_blueprints_canonical` / `element_changeArg_all_frame` /
+    `sequence_blueprints_canonical`: an API-built element whose blueprint came in with
+    *non-canonical* names (a, a, b7 - never produced by the blueprint API) holds it as a, a2, b;
+    and an API-built sequence storing that element -/
+def g12RawBP : BP :=
+  { segs := [ { name := "a", fn := Fn.rampFn, args := [.num 0, .num 1], dur := .num 1 },
+              { name := "a", fn := Fn.rampFn, args := [.num 0, .num 1], dur := .num 1 },
+              { name := "b7", fn := Fn.rampFn, args := [.num 0, .num 1], dur := .num 1 } ],
+    SR := .num 10 }
+def g12Element : Element := (({} : Element).addBluePrint (.int 1) g12RawBP).st
+
+theorem g12Element_built : Element.ApiBuilt g12Element := .addBluePrint _ _ _ .empty
+
+example : g12RawBP.names = ["a", "a", "b7"] ∧
+    (match Dict.get? g12Element.chans (.int 1) with
+      | some ⟨.bp b, _⟩ => b.names
+      | _ => []) = ["a", "a2", "b"] ∧
+    (g12Element.changeArg (.int 1) "a2" (.str "stop") (.num 5) true).err = none ∧
+    Sequence.ApiBuilt (Sequence.addElement (SeqCore.setSR {} (.num 10)) 1 g12Element).st ∧
+    (Sequence.addElement (SeqCore.setSR {} (.num 10)) 1 g12Element).err = none := by
+  refine ⟨by decide +kernel, by decide +kernel, by decide +kernel,
+    .addElement _ _ _ (.setSpec _ _ _ .empty) g12Element_built, by decide +kernel⟩
+
+/-! ### edits issued through `sequence.element(pos)` -/
+
+/-- **`sequence.element(pos).changeArg(...)` delegates** (`Tools.modifyElement`, the model of editing
+    the stored element in place): at a position holding an element `e` the call raises exactly what
+    `e.changeArg` raises, the position then holds `e.changeArg`'s result, every other position is
+    untouched (combine with `element_changeArg_delegates` for the channel's blueprint) -/
+theorem sequence_element_changeArg_delegates (s : Sequence) (pos : ℤ) (e : Element)
+    (hg : Dict.get? s.data pos = some (.el e)) (ch : Chan) (name : String) (arg value : Val) (all : Bool) :
+    (Tools.modifyElement s pos (fun e => e.changeArg ch name arg value all)).err =
+      (e.changeArg ch name arg value all).err ∧
+    Dict.get? (Tools.modifyElement s pos (fun e => e.changeArg ch name arg value all)).st.data pos =
+      some (.el (e.changeArg ch name arg value all).st) ∧
+    ∀ p, p ≠ pos →
+      Dict.get? (Tools.modifyElement s pos (fun e => e.changeArg ch name arg value all)).st.data p =
+        Dict.get? s.data p := by
+  unfold Tools.modifyElement
+  simp only [hg]
+  exact ⟨trivial, Dict.get?_upsert_self _ _ _, fun p hp => Dict.get?_upsert_other _ _ _ _ hp⟩
+
+/-- **`sequence.element(pos).changeDuration(...)` delegates**: same statement -/
+theorem sequence_element_changeDuration_delegates (s : Sequence) (pos : ℤ) (e : Element)
+    (hg : Dict.get? s.data pos = some (.el e)) (ch : Chan) (name : String) (dur : Val) (all : Bool) :
+    (Tools.modifyElement s pos (fun e => e.changeDuration ch name dur all)).err =
+      (e.changeDuration ch name dur all).err ∧
+    Dict.get? (Tools.modifyElement s pos (fun e => e.changeDuration ch name dur all)).st.data pos =
+      some (.el (e.changeDuration ch name dur all).st) ∧
+    ∀ p, p ≠ pos →
+      Dict.get? (Tools.modifyElement s pos (fun e => e.changeDuration ch name dur all)).st.data p =
+        Dict.get? s.data p := by
+  unfold Tools.modifyElement
+  simp only [hg]
+  exact ⟨trivial, Dict.get?_upsert_self _ _ _, fun p hp => Dict.get?_upsert_other _ _ _ _ hp⟩
+
+/-- **the name invariant with in-place edits of stored elements**: for every sequence built through
+    the public sequence API *and* any number of `sequence.element(pos).changeArg / changeDuration`
+    calls in between (`G12.SeqBuiltE`; accepted or rejected, with or without `replaceeverywhere`),
+    every blueprint inside a stored element - at an element position or inside a stored subsequence -
+    has canonical, pairwise distinct names -/
+theorem sequence_blueprints_canonical_with_element_edits (s : Sequence) (h : G12.SeqBuiltE s) :
+    (∀ p e ch ent b, Dict.get? s.data p = some (.el e) → Dict.get? e.chans ch = some ent → ent.data = .bp b →
+      makeNamesUnique b.names = b.names ∧ b.names.Nodup) ∧
+    (∀ p (sub : SubSeq) q e ch ent b, Dict.get? s.data p = some (.sub sub) → Dict.get? sub.data q = some e →
+      Dict.get? e.chans ch = some ent → ent.data = .bp b →
+      makeNamesUnique b.names = b.names ∧ b.names.Nodup) := by
+  have hi := G12.seqBuiltE_elInv h
+  refine ⟨fun p e ch ent b hp hc hb => ?_, fun p sub q e ch ent b hp hq hc hb => ?_⟩
+  · have hinv : Inv b :=
+      (hi _ (Dict.mem_of_get?_eq_some p _ hp)).1 e rfl (ch, ent) (Dict.mem_of_get?_eq_some ch ent hc) b hb
+    exact ⟨hinv, inv_nodup hinv⟩
+  · have hinv : Inv b :=
+      (hi _ (Dict.mem_of_get?_eq_some p _ hp)).2 sub rfl _ (Dict.mem_of_get?_eq_some q e hq) (ch, ent)
+        (Dict.mem_of_get?_eq_some ch ent hc) b hb
+    exact ⟨hinv, inv_nodup hinv⟩
+
+/-- non-vacuity: the API-built sequence above with its stored element edited in place
+    (`element(1).changeArg(1, "a2", "stop", 5)`, accepted), then a second element added -/
+example : G12.SeqBuiltE
+      (Sequence.addElement
+        (Tools.modifyElement (Sequence.addElement (SeqCore.setSR {} (.num 10)) 1 g12Element).st 1
+          (fun e => e.changeArg (.int 1) "a2" (.str "stop") (.num 5) false)).st 2 g12Element).st ∧
+    (Tools.modifyElement (Sequence.addElement (SeqCore.setSR {} (.num 10)) 1 g12Element).st 1
+      (fun e => e.changeArg (.int 1) "a2" (.str "stop") (.num 5) false)).err = none :=
+  ⟨.addElement _ _ _ (.elementChangeArg _ _ _ _ _ _ _ (.addElement _ _ _ (.setSpec _ _ _ .empty) g12Element_built))
+      g12Element_built, by decide +kernel⟩
 
 end BB.C05
